@@ -360,8 +360,22 @@ class NullSafety:
             return True
         if between or isinstance(common, (ast.For, ast.While)) and common is not binding:
             return True
-        # same statement list: precedes only if textually earlier
-        return a.lineno < b.lineno
+        # same statement list: precedes only if textually earlier ...
+        if not a.lineno < b.lineno:
+            return False
+        # ... and control can get from a to b: when a sits in an arm of an earlier `if` of that list and the arm leaves the iteration
+        # (continue / return / raise / break as its last statement), b does not run after a for the same k
+        ia = next((x for x in ca if self.parents.get(x) is common), None)
+        if isinstance(ia, ast.If) and a is not ia:
+            top = ia
+            while isinstance(top, ast.If):
+                arm = top.body if any(a is y for st_ in top.body for y in ast.walk(st_)) else (top.orelse if any(a is y for st_ in top.orelse for y in ast.walk(st_)) else None)
+                if arm is None:
+                    break
+                if self.exits(arm):
+                    return False
+                top = arm[0] if len(arm) == 1 and isinstance(arm[0], ast.If) else None
+        return True
 
     # ------------------------------------------------------------ statements
     @staticmethod
